@@ -161,6 +161,19 @@ def r3(ctx):
         ctx.check("Address:hash-field[%s]" % fld, fld in uncond, where(m, e),
                   "%s contributes to the hash (in route-aware mode) but __eq__ compares it only when both sides have one: a == b with hash(a) != hash(b), dictionary lookups miss" % fld
                   if fld in cond else "%s contributes to the hash but is not compared by __eq__" % fld, facts={"hashed": sorted(hashed), "compared_unconditionally": sorted(uncond), "compared_conditionally": sorted(cond)})
+    # the same per mode: what _tuple() returns on the paths feasible with route awareness switched off (the default)
+    evt = Evaluator(prog, m, c)
+    hashed_default = set()
+    for p_ in enumerate_paths(t):
+        if p_.term != "return" or not feasible(p_, evt, {"settings.route_aware": False}):
+            continue
+        r_ = [e_.node for e_ in p_.events if e_.kind == "return"][-1]
+        for n in ast.walk(r_.value):
+            if is_self_attr(n) and n.attr.startswith("addr"):
+                hashed_default.add(n.attr)
+    for fld in sorted(hashed_default):
+        ctx.check("Address:hash-field[%s]@default-mode" % fld, fld in uncond, where(m, t),
+                  "with route awareness off (the default) %s still contributes to the hash, but __eq__ does not compare it unconditionally: equal addresses hash differently, dictionary and set lookups miss" % fld)
     for fld in ("addrType", "addrNet", "addrAddr"):
         ctx.check("Address:eq-field[%s]" % fld, fld in uncond and fld in hashed, where(m, e), "%s must take part in both equality and hash" % fld)
     # the hashed octets are an immutable bytes object the address owns (a caller's bytearray is unhashable and can change under the key)
@@ -379,3 +392,30 @@ def r5(ctx):
         s = [x for x in walk_shallow(d) if isinstance(x, ast.Assign) and norm(x.targets[0]) == var and isinstance(x.value, ast.Constant)]
         ok = len(s) == 1 and s[0].value.value == dflt and any(t == var and not p for t, p in atom_texts(facts_at(s[0])))
         ctx.check("Address.decode_address:default[%s]" % var, ok, where(m, d), "a missing %s defaults to %s" % (var, dflt))
+
+
+def ports_accepted(ctx):
+    """(C18.R8, C09.R6) an (address, port) pair with any 16-bit port, 0..65535, is accepted: no refusal in the tuple form
+    of the parser is reachable for such a port (every B/IP decoder builds its addresses through this form)"""
+    prog = ctx.prog
+    a = prog.cls(MOD, "Address")
+    m = a.module
+    d = a.methods["decode_address"]
+    ev = Evaluator(prog, m, a)
+    n = 0
+    stores = [s_ for t_, s_ in attr_stores(d, "addrPort") if isinstance(s_, ast.Assign)]
+    for r in [x for x in walk_shallow(d) if isinstance(x, ast.Raise)]:
+        fa = facts_at(r)
+        texts = [norm(z.test) for z in fa if z.origin == "arm"]         # the conditions this refusal is selected by
+        if not any("addrPort" in t or t.replace(" ", "").startswith("port") or "(port" in t or " port " in " %s " % t for t in texts):
+            continue
+        n += 1
+        port_facts = [z for z in fa if z.origin == "arm" and ("addrPort" in norm(z.test) or "port" in norm(z.test))]
+        reach = [v for v in (0, 1, 47808, 65534, 65535) if ev.may_hold(port_facts, {"self.addrPort": v, "port": v, "int(port)": v})]
+        ctx.check("Address.decode_address:port-refusal@%d" % n, not reach, where(m, r), "a refusal is reachable for the legal ports %r" % reach)
+    ctx.check("Address.decode_address:port-stores", len(stores) >= 3, where(m, d), "the IP forms store the port")
+
+
+@rule("C18.R8", "address/port tuples with any 16-bit port are accepted", floor=1, engines="E1 facts + E5 value sets")
+def r8(ctx):
+    ports_accepted(ctx)
